@@ -20,22 +20,23 @@ type vHandlerCall struct {
 }
 
 type vWorld struct {
-	dr       *DialogueRunner
-	store    *variable.InMemoryStorer
-	nodes    []*tree.Node
-	titles   []string
-	handlers []vHandlerCall // commands seen by handlers registered with AddCommand
-	probes   []vHandlerCall // calls seen by functions registered with AddFunction
-	pending  chan error     // the channel returned by the "pend" command, if it ran
-	prior    chan error     // a command channel already installed in the pre-state (CMDCHAN)
+	dr              *DialogueRunner
+	store           *variable.InMemoryStorer
+	nodes           []*tree.Node
+	titles          []string
+	handlers        []vHandlerCall // commands seen by handlers registered with AddCommand
+	probes          []vHandlerCall // calls seen by functions registered with AddFunction
+	pending         chan error     // the channel returned by the "pend" command, if it ran
+	prior           chan error     // a command channel already installed in the pre-state (CMDCHAN)
 	priorUnbuffered bool
 	priorDone       bool
 	priorFailed     bool
-	lineCtr  int
-	lines    map[*tree.Statement]string // opaque line statement -> its text
-	waiting  *tree.ShortcutOptionStatement
-	choice   int
-	depthCfg int
+	lineCtr         int
+	lines           map[*tree.Statement]string // opaque line statement -> its text
+	waiting         *tree.ShortcutOptionStatement
+	choice          int
+	depthCfg        int
+	badLines        map[*tree.Statement]bool // line statements whose markup is faulty (BADMARKUP)
 }
 
 func (w *vWorld) newLineStmt(prefix string) *tree.Statement {
@@ -157,9 +158,27 @@ func (w *vWorld) vStatement(tag string, budget int, allowBad bool) *tree.Stateme
 	}
 	switch kind {
 	case vKLine:
+		if allowBad && vParam("BADMARKUP", 0) != 0 && vChoose(tag+".badmarkup", 2) == 1 {
+			// a line without inline expression whose markup is faulty (a close marker nothing opened)
+			s := w.newLineStmt("L")
+			s.LineStatement.Text.Elements[0].Text = "a[/b]"
+			if w.badLines == nil {
+				w.badLines = map[*tree.Statement]bool{}
+			}
+			w.badLines[s] = true
+			return s
+		}
 		return w.newLineStmt("L")
 	case vKOptions:
-		return w.optionGroup(tag, vParam("OPTS", 2), allowBad)
+		g := w.optionGroup(tag, vParam("OPTS", 2), allowBad)
+		if vParam("OPTJUMP", 0) != 0 {
+			// bodies that are left in their middle by a jump back to n0
+			for _, o := range g.ShortcutOptionStatement.Options {
+				o.Statements = []*tree.Statement{o.Statements[0],
+					{JumpStatement: &tree.JumpStatement{Expression: vValExpr(variable.NewString("n0"))}}, w.newLineStmt("L")}
+			}
+		}
+		return g
 	case vKIf:
 		st := &tree.IfStatement{}
 		nc := 1 + vChoose(tag+".nclauses", vParam("CLAUSES", 2))
@@ -199,7 +218,23 @@ func (w *vWorld) vStatement(tag string, budget int, allowBad bool) *tree.Stateme
 		}
 		return &tree.Statement{CallStatement: &tree.CallStatement{FunctionCall: &tree.FunctionCall{FunctionID: id, Arguments: []*tree.Expression{vValExpr(variable.NewNumber(7))}}}}
 	case vKCommand:
-		switch vChoose(tag+".cmd", 7) {
+		ncmd := 7
+		if vParam("CMDV", 0) != 0 {
+			ncmd = 9
+		}
+		switch vChoose(tag+".cmd", ncmd) {
+		case 7, 8:
+			// arguments whose values change from one execution to the next: a function call and a variable
+			// (or a function call and a literal)
+			which := vChoose(tag+".cmdv.second", 2)
+			cs := vCommandStmt(variable.NewString("cmdv"))
+			cs.CommandStatement.Elements = append(cs.CommandStatement.Elements,
+				&tree.CommandStatementElement{Expression: &tree.Expression{FunctionCall: &tree.FunctionCall{FunctionID: "visited_count", Arguments: []*tree.Expression{vValExpr(variable.NewString("n0"))}}}},
+				&tree.CommandStatementElement{Expression: vVarExpr("x")})
+			if which == 1 {
+				cs.CommandStatement.Elements[2].Expression = vValExpr(variable.NewNumber(4))
+			}
+			return cs
 		case 0:
 			return vCommandStmt(variable.NewString("stop"))
 		case 1:
@@ -221,6 +256,11 @@ func (w *vWorld) vStatement(tag string, budget int, allowBad bool) *tree.Stateme
 	case vKJumpExpr:
 		if vBool(tag + ".jumpexpr.illtyped") {
 			return &tree.Statement{JumpStatement: &tree.JumpStatement{Expression: vVarExpr("x")}}
+		}
+		if vParam("JUMPCAT", 0) != 0 && vChoose(tag+".jumpexpr.cat", 2) == 1 {
+			// "n" + $c0: a literal on the left, a variable on the right
+			op := tree.AdditionBinaryOperator
+			return &tree.Statement{JumpStatement: &tree.JumpStatement{Expression: &tree.Expression{Operator: &op, LeftOperand: vValExpr(variable.NewString("n")), RightOperand: vVarExpr("c0")}}}
 		}
 		return &tree.Statement{JumpStatement: &tree.JumpStatement{Expression: vVarExpr("s0")}}
 	}
@@ -255,6 +295,9 @@ func vNewWorld(budget int, allowBad bool) *vWorld {
 	st.SetBooleanValue("b1", vBool("b1"))
 	st.SetStringValue("s0", vString("s0", 2))
 	st.SetNumberValue("x", vFloat("x"))
+	if vParam("JUMPCAT", 0) != 0 {
+		st.SetStringValue("c0", vString("c0", 1))
+	}
 	w.store = st
 
 	// current node: one of the titles, symbolic
@@ -294,6 +337,17 @@ func vNewWorld(budget int, allowBad bool) *vWorld {
 		ch <- nil
 		return ch
 	})
+	dr.AddCommand("cmdv", func(args []*variable.Value) <-chan error {
+		var cp []*variable.Value
+		for _, a := range args {
+			c := vCopyValue(a)
+			cp = append(cp, &c)
+		}
+		w.handlers = append(w.handlers, vHandlerCall{"cmdv", cp})
+		ch := make(chan error, 1)
+		ch <- nil
+		return ch
+	})
 	dr.AddCommand("fail", func(args []*variable.Value) <-chan error {
 		w.handlers = append(w.handlers, vHandlerCall{"fail", args})
 		ch := make(chan error, 1)
@@ -311,7 +365,11 @@ func vNewWorld(budget int, allowBad bool) *vWorld {
 	w.choice = vInt("choice")
 
 	// ---- lastStatement: nil | a line | some non-yielding statement | an option group ----
-	switch vChoose("last", 4) {
+	last := vParam("LAST", -1)
+	if last < 0 {
+		last = vChoose("last", 4)
+	}
+	switch last {
 	case 1:
 		dr.lastStatement = w.newLineStmt("P")
 	case 2:
@@ -464,6 +522,7 @@ type vSpecOutcome struct {
 	entered []string // titles of the nodes entered
 	nCmd    int      // handler invocations expected
 	nProbe  int
+	cmdv    [][2]float64 // arguments each executed cmdv command is to receive: visited_count("n0"), $x
 }
 
 // vSpecEval evaluates the small expression language the world uses, against the *real* store
@@ -473,6 +532,7 @@ type vSpecEnv struct {
 	strs    map[string]string
 	nums    map[string]float64
 	probeOK func(i int) bool
+	visits  map[string]int // visit counts at the start of the step
 }
 
 func vEnvOf(st *variable.InMemoryStorer) *vSpecEnv {
@@ -536,6 +596,10 @@ func (w *vWorld) vSpecNext(env *vSpecEnv, K []*tree.Statement, waiting *tree.Sho
 		K = K[1:]
 		switch {
 		case s.LineStatement != nil:
+			if w.badLines[s] {
+				out.fail = true // faulty markup
+				return out
+			}
 			out.yield, out.K = s, K
 			return out
 		case s.ShortcutOptionStatement != nil:
@@ -575,6 +639,13 @@ func (w *vWorld) vSpecNext(env *vSpecEnv, K []*tree.Statement, waiting *tree.Sho
 					return out
 				}
 				target = t
+			case x.Operator != nil && *x.Operator == tree.AdditionBinaryOperator && x.LeftOperand.Value != nil && x.RightOperand.VariableID != nil:
+				t, ok := env.strs[*x.RightOperand.VariableID]
+				if !ok {
+					out.fail = true
+					return out
+				}
+				target = *x.LeftOperand.Value.String + t
 			default:
 				out.fail = true
 				return out
@@ -626,6 +697,23 @@ func (w *vWorld) vSpecNext(env *vSpecEnv, K []*tree.Statement, waiting *tree.Sho
 				return out
 			case "cmd":
 				out.nCmd++
+			case "cmdv":
+				out.nCmd++
+				c := env.visits["n0"]
+				for _, left := range out.jumps {
+					if left == "n0" && w.tracked("n0") {
+						c++
+					}
+				}
+				x, ok := env.nums["x"]
+				if v := el[2].Expression.Value; v != nil {
+					x, ok = *v.Number, true
+				}
+				if !ok {
+					out.fail = true
+					return out
+				}
+				out.cmdv = append(out.cmdv, [2]float64{float64(c), x})
 			case "fail":
 				out.nCmd++
 				out.fail = true
